@@ -1,11 +1,17 @@
 import XmppModel.Prelude.Hex
 import XmppModel.Model.Skeleton
 import XmppModel.Model.ScramLoop
+import XmppModel.Model.FormLines
+import XmppModel.Model.MucHandover
 /-! Driver for C09 (see harness/c09 for the line protocol).
 
     flagged <skeleton>                 -> ok | flagged:<site,…>      the checker's verdict
     exec <skeleton> <oracle> <fuel>    -> norm | brk | cont | ret | stuck | panic:<site>
     panicsite <skeleton> <site>        -> flagged | missed           is the site of an observed panic flagged?
+    formsubmit <instructions> <values> -> i:<list>/v:<list> | STALL   what a submission of the peer's form
+                                          carries (Model/FormLines.lean: the fuel-bounded loops of form.go)
+    muchand none|same|other            -> handed | forward           the join hand-over of muc's presence handler
+                                          (Model/MucHandover.lean) on its one-step domain
     serve <input> / helper <name> <type> <reply> -> ok                the model's prediction for every input: the
                                           theorems C09_library_never_panics and C09_serve_terminates (Props/C09.lean)
                                           say no execution panics and Serve returns; the harness observes ok|PANIC|STALL
@@ -27,8 +33,38 @@ def hexzValid (s : String) : Bool :=
     | [h, n] => h.length == 2 && (hexDecode h).isSome && n.toNat?.isSome
     | _ => false
 
+/-- list fields of `formsubmit`: ','-joined, every element `s`+hex (`s` alone = empty string),
+the empty list `-`. -/
+def decList (s : String) : Option (List Bytes) :=
+  if s == "-" then some [] else
+  mapM? (fun e : String => match e.toList with
+    | 's' :: rest => if rest.isEmpty then some [] else hexDecodeChars rest
+    | _ => none) (s.splitOn ",")
+
+def encList (l : List Bytes) : String :=
+  if l.isEmpty then "-" else
+  ",".intercalate (l.map fun b => if b.isEmpty then "s" else "s" ++ hexEncode b)
+
 def handle (args : List String) : Option String :=
   match args with
+  | ["muchand", q] => do
+    -- what is in Channel.join when a self-presence of the nickname held arrives: nothing, a
+    -- re-join under that nickname (the call listens), a join under another nickname
+    let req : Option MucHandover.Req ← match q with
+      | "none" => some none
+      | "same" => some (some ⟨true, true⟩)
+      | "other" => some (some ⟨false, true⟩)
+      | _ => none
+    match MucHandover.selectJoin 2 req [] with
+    | none => pure "STALL"
+    | some (.handed, _) => pure "handed"
+    | some (.forward, _) => pure "forward"
+  | ["formsubmit", ins, vals] => do
+    let i ← decList ins
+    let v ← decList vals
+    match FormLines.submitted i v with
+    | none => pure "STALL"
+    | some (a, b) => pure s!"i:{encList a}/v:{encList b}"
   | ["flagged", sk] => do
     let s ← decode sk
     let fl := flagged s
